@@ -1164,6 +1164,33 @@ def expand(unit, db=None, outdir=None, variant=None):
             elif s.startswith('//@constbytes '):
                 m = re.match(r'//@constbytes\s+(\w+)\s+@\s+(\S+)\s*$', s)
                 lines.append(const_bytes(m.group(1), m.group(2), info))
+            elif s.startswith('//@wrapper '):
+                # a public function that only delegates: it is verified against the CONTRACT TEXT of the function it
+                # delegates to (requires / ensures copied verbatim, parameters matched by name), so a wrapper that swaps
+                # or replaces an argument fails the same labelled clauses
+                m = re.match(r'//@wrapper\s+(\S.*?)\s+@\s+(\S+)\s+=\s+(\S.*?)\s*$', s)
+                wkey, wpath, ikey = m.group(1), m.group(2), m.group(3)
+                if ikey not in db:
+                    raise GenError('unit %s: no contract for %s (wrapper %s)' % (unit, ikey, wkey))
+                ic = db[ikey]
+                wc = Contract(wkey, wpath, ic.origin + ' (via //@wrapper)')
+                witem = locate_fn(wc)
+                wsig = witem.signature.strip()
+                ihead_sig = head_signature(ic.head)
+                rn = re.search(r'->\s*\(\s*(\w+)\s*:', ihead_sig)
+                spec_part = ic.head[len(ihead_sig):]
+                if '->' in wsig:
+                    a, b = wsig.rsplit('->', 1)
+                    wsig2 = a.rstrip() + ' -> (%s: %s)' % (rn.group(1) if rn else 'r', b.strip())
+                else:
+                    wsig2 = wsig
+                wc.head = wsig2 + '\n' + spec_part.lstrip('\n')
+                pw = re.findall(r'(\w+)\s*:', wsig.split('(', 1)[1].rsplit(')', 1)[0])
+                pi = re.findall(r'(\w+)\s*:', ihead_sig.split('(', 1)[1].rsplit(')', 1)[0].split('->')[0])
+                if sorted(pw) != sorted(pi):
+                    raise GenError('unit %s: wrapper %s and %s name their parameters differently (%s / %s): the contract text cannot be transferred (lost anchor)' % (unit, wkey, ikey, pw, pi))
+                lines.append(emit_fn(wc, True, info))
+                info['functions'][-1]['wrapper_of'] = ikey
             elif s.startswith('//@const '):
                 # a scalar constant of the source, copied with its defining expression (never hand-written in a unit)
                 m = re.match(r'//@const\s+(\w+)\s+@\s+(\S+)\s*$', s)
